@@ -258,6 +258,7 @@ ErrOperand(kind, i) ==
   CASE kind = "er"     -> ErObj(i)
     [] kind = "erfm"   -> TObj(i, {"ER", "FM"}, <<>>, <<SWrite(P(i + 5))>>, P(i), <<>>)
     [] kind = "ersf"   -> TObj(i, {"ER", "SF"}, <<SSafeString(P(600 + i)), SUnsafeString(P(700 + i))>>, <<>>, P(i), <<>>)
+    [] kind = "ersm"   -> TObj(i, {"ER", "SM"}, <<>>, <<>>, P(i), <<>>)
     [] kind = "safe"   -> TSafe(i, ErObj(i + 1))
     [] kind = "unsafe" -> TUnsafe(i, ErObj(i + 1))
     [] kind = "ernil"  -> TObj(i, {"ER", "NILP"}, <<>>, <<>>, <<>>, <<>>)
@@ -267,8 +268,8 @@ ErrOperand(kind, i) ==
     [] kind = "st"     -> StObj(i)
     [] kind = "erpan"  -> TObj(i, {"ER"}, <<>>, <<>>, <<>>, <<TStr(i + 1, P(i + 1))>>)
     [] kind = "struct" -> TStruct(i, <<UInt(i + 1), UStr(i + 2)>>, <<FALSE, TRUE>>)
-ErrKinds  == {"er", "erfm", "ersf", "safe", "unsafe", "ernil", "nil", "int", "str", "st", "erpan", "struct"}
-QErrKinds == {"er", "erfm", "safe", "unsafe", "nil", "int", "str", "st", "struct"}
+ErrKinds  == {"er", "erfm", "ersf", "ersm", "safe", "unsafe", "ernil", "nil", "int", "str", "st", "erpan", "struct"}
+QErrKinds == {"er", "erfm", "ersf", "ersm", "safe", "unsafe", "nil", "int", "str", "st", "struct"}
 ErrRoots == LET ks == IF Slice = "errorf" THEN ErrKinds ELSE QErrKinds IN
             {<<>>} \cup {<<ErrOperand(k1, 10)>> : k1 \in ks} \cup {<<ErrOperand(k1, 10), ErrOperand(k2, 20)>> : k1 \in ks, k2 \in ks}
 \* (objects are named ints in the harness: '*' would read their handle as a width; kept out of star formats)
@@ -313,6 +314,9 @@ HookExpand(r) == LET ts == HookPos(r[2], HookErr(r[1], 10)) IN
                  {Case("Sprintf", FZ \o <<124>> \o Fv, <<UStr(47)>> \o ts, <<>>)} \cup
                  {Case("Sprintf", Around(f), ts, <<>>) : f \in {Fv, Fs, Fd, Fq, Fx, FplusV, FsharpV, F6v}}
                  \cup {Case("Sprint", <<>>, ts, <<>>), Case("Errorf", Around(Fw), ts, <<>>), Case("Errorf", Fw \o Fw, ts \o ts, <<>>)}
+                 \* %w spelled with a flag, a width, an argument index
+                 \* (not %+w on the statically typed uint8 slice: the plus flag inside that bad-verb report is not modelled)
+                 \cup {Case("Errorf", Around(f), ts, <<>>) : f \in (IF r[2] = "u8slice" THEN {F5w, FwIdx1} ELSE {FplusW, F5w, FwIdx1})}
 
 \* ---- slice "dir" (C01 C02 C04 C05): every form of directive around operands of every class
 DStar   == <<37, 42, 100>>            \* %*d
